@@ -70,14 +70,6 @@ def argOk (env : Env) (t : T) (p : Str) : Bool :=
   | .ok a => noLinkAncestor t a
   | _ => true
 
-/-- the kernel's own resolution of a RAW string (what `Stdfs::is_dir`/`is_file` use, they skip `abs`)
-    finds what the lexical resolution finds -/
-def rawOk (env : Env) (t : T) (p : Str) : Bool :=
-  match resolve env t p with
-  | .ok a => decide ((lstatRaw t p).toOption = get t a)
-  | .err _ => decide ((lstatRaw t p).toOption = none)
-  | _ => true
-
 /-- the path arguments of an operation -/
 def opArgs : Op → List Str
   | .mkfile p | .mkfileM p _ | .mkdirP p | .mkdirM p _ | .writeAll p _ | .appendAll p _
@@ -106,39 +98,56 @@ def moveOkB (t : T) (sa da : FsPath) : Bool :=
   !(isPrefixOrEq sa t.cwd) &&
   !(isLink t (moveDst t sa da))
 
+/-- every key of the tree, rendered, is resolved by `abs` to itself (`DirEntry::path()` goes through
+    `Stdfs::abs` again: a name containing `~` or `$` would be re-expanded) -/
+def keysRT (env : Env) (t : T) : Bool :=
+  t.nodes.all (fun kv => decide (resolve env t (renderP kv.1) = .ok kv.1))
+
+/-- the domain of a listing of `p`: keys round-trip through `abs`; optionally no listed node is a link
+    (`dirs`/`files`/`all_dirs`/`all_files`: finding S7) -/
+def listOkB (env : Env) (t : T) (p : Str) (all noLinks : Bool) : Bool :=
+  keysRT env t &&
+  (match resolve env t p with
+   | .ok a =>
+     (!noLinks || t.nodes.all (fun kv =>
+        !(isProperPrefix a kv.1 && (all || kv.1.length = a.length + 1)) || !isLinkKind kv.2.kind))
+   | _ => true)
+
+/-- the keys the walk from `a` visits: `a` itself and, when recursing into a real directory, everything below -/
+def vis (t : T) (rc : Bool) (a k : FsPath) : Bool := k == a || (rc && isDir t a && isProperPrefix a k)
+
+/-- the domain of `chown` on one argument: `abs` is idempotent on the resolved path, keys round-trip,
+    and no visited node is a link (`chown(2)` follows links: finding S16) -/
+def chownOkB (env : Env) (t : T) (p : Str) (rc : Bool) : Bool :=
+  keysRT env t &&
+  (match resolve env t p with
+   | .ok a =>
+     decide (resolve env t (renderP a) = .ok a) &&
+     t.nodes.all (fun kv => !(vis t rc a kv.1) || !isLinkKind kv.2.kind)
+   | _ => true)
+
 /-- the resolved argument is not a link -/
 def notLinkArg (env : Env) (t : T) (p : Str) : Bool :=
   match resolve env t p with
   | .ok a => !isLink t a
   | _ => true
 
-/-- operation-specific part of the domain (each clause excludes a documented finding) -/
+/-- operation-specific part of the domain (each clause excludes a documented finding; the clauses for
+    S1–S5 are gone with the repairs 0b4a978, 07b9520, fb609ee, 65f3327, 1506af7) -/
 def opOk (env : Env) (t : T) : Op → Bool
-  -- S1: `remove` of a link to a directory fails on Stdfs
-  | .remove p => (match resolve env t p with
-      | .ok a => !isLinkToDir t a
-      | _ => true)
-  -- S2: `mkdir_m` on an existing file (or link to a file) is `Ok` on Stdfs
-  | .mkdirM p _ => (match resolve env t p with
-      | .ok a => (match get t a with
-        | some n => decide (n.kind = .dir) || decide (n.kind = .link true)
-        | none => true)
-      | _ => true)
-  -- S3: `readlink_abs` of something that is not a link is `Ok("")` on Stdfs
-  | .readlinkAbs p => (match resolve env t p with
-      | .ok a => (match get t a with | some n => isLinkKind n.kind | none => true)
-      | _ => true)
-  -- S4: `remove_all` of a regular file fails on Stdfs (`fs::remove_dir_all`)
-  | .removeAll p => (match resolve env t p with
-      | .ok a => !isFile t a
-      | _ => true)
-  -- S5: `is_dir` / `is_file` skip `abs`
-  | .isDir p | .isFile p => rawOk env t p
   -- S6: `is_exec` / `is_readonly` / `uid` / `gid` / `owner` go through `fs::metadata`, which follows links
   | .isExec p | .isReadonly p | .uid p | .gid p | .owner p => notLinkArg env t p
   -- S12 (shared with Memfs, class `empty_lines_noop`): an empty text is not written at all
   | .writeLines _ ls | .appendLines _ ls => (joinLines ls).isSome
   | .appendLine _ l => decide (l ≠ [])
+  -- S16: `chown(2)` follows links
+  | .chown p _ _ => chownOkB env t p true
+  | .chownB p c => chownOkB env t p c.recursive
+  -- S7: listings of links (S15 was repaired: fcf2bdc)
+  | .paths p => listOkB env t p false false
+  | .dirs p | .files p => listOkB env t p false true
+  | .allPaths p => listOkB env t p true false
+  | .allDirs p | .allFiles p => listOkB env t p true true
   -- S8, S13, S14: `move_p` of links, onto links, of the directory the process is in
   | .moveP a b => (match resolve env t a, resolve env t b with
       | .ok sa, .ok da => moveOkB t sa da
@@ -458,5 +467,16 @@ theorem tequiv_put_put (t : T) (k : FsPath) (a b : Node) : TEquiv (put (put t k 
 
 theorem get_put_self (t : T) (k : FsPath) (a : Node) : get (put t k a) k = some a := by
   rw [get_put]; simp
+
+/-- the operations for which the refinement is proved -/
+def CoveredS : Op → Bool
+  | .cwd | .root | .abs _ | .exists _ | .isDir _ | .isFile _ | .isSymlink _ | .isSymlinkDir _
+  | .isSymlinkFile _ | .isExec _ | .isReadonly _ | .mode _ | .uid _ | .gid _ | .owner _
+  | .readAll _ | .read _ | .readlink _ | .readlinkAbs _
+  | .setCwd _ | .mkfile _ | .writeAll _ _ | .appendAll _ _ | .remove _ | .removeAll _ | .symlink _ _
+  | .writeLines _ _ | .appendLines _ _ | .appendLine _ _ | .readLines _ | .mkdirP _ | .mkdirM _ _ | .moveP _ _
+  | .paths _ | .dirs _ | .files _ | .allPaths _ | .allDirs _ | .allFiles _
+  | .chown _ _ _ | .chownB _ _ => true
+  | _ => false
 
 end Rivia.Lemmas.StdfsL
